@@ -65,6 +65,11 @@ func Experimentals(sc *gen.Scenario) []string {
 // although every deadline involved is far shorter (liveness violation; recorded by timed()).
 var ErrHang = errors.New("sim: call did not return (hang)")
 
+// PanicError is what a panic that reached the calling goroutine is turned into.
+type PanicError struct{ Msg string }
+
+func (p *PanicError) Error() string { return "sim: panic reached the caller: " + p.Msg }
+
 // timed runs fn on its own goroutine and gives up after 120 s of virtual time.
 func timed[T any](e *Env, what string, fn func() (T, error)) (T, error) {
 	type res struct {
@@ -74,6 +79,15 @@ func timed[T any](e *Env, what string, fn func() (T, error)) (T, error) {
 	ch := make(chan res, 1)
 	id := e.Run.Identity()
 	e.Run.Go(id+"/call", func() {
+		defer func() {
+			// a panic on the calling goroutine would be turned into an Internal error by the gRPC
+			// recovery interceptor in production; the harness does the same
+			if p := recover(); p != nil {
+				var zero T
+				simrt.Probe("panic_reached_caller")
+				ch <- res{zero, &PanicError{fmt.Sprint(p)}}
+			}
+		}()
 		v, err := fn()
 		ch <- res{v, err}
 	})
@@ -99,8 +113,13 @@ func (e *Env) hangContext() string {
 	if sc.Knob("lo_deadline_us", 0) > 0 {
 		tags = append(tags, "short_deadline")
 	}
-	if len(e.DS.Fired()) > 0 {
-		tags = append(tags, "fault_fired")
+	if f := e.DS.Fired(); len(f) > 0 {
+		var ks []string
+		for k := range f {
+			ks = append(ks, k)
+		}
+		sort.Strings(ks)
+		tags = append(tags, "fault_fired:"+strings.Join(ks, "/"))
 	}
 	model := ""
 	if RepeatsOperand(sc.Model) {
